@@ -75,6 +75,45 @@ def classify(T, written, got):
     return "same" if got == written else "different"
 
 
+def optimized_cases(_arg):
+    """Run in an interpreter started with PYTHONOPTIMIZE=1 (assert statements are stripped): a record of a second type offered
+    to an Avro writer -> cases for Trace_Avro (probe kinds second-same-name / second-other-name)."""
+    import fastavro
+
+    from flow.record import RecordDescriptor
+    from flow.record.adapter.avro import AvroWriter
+
+    assert False, "never evaluated under -O"      # (if this raises, the interpreter is NOT optimising)
+    tmp = common.scratch("c19opt")
+    out = []
+    for kind in ("second-same-name", "second-other-name"):
+        p = os.path.join(tmp, "o.avro")
+        if os.path.exists(p):
+            os.remove(p)
+        D = RecordDescriptor("av/opt", [("varint", "n"), ("string", "f")])
+        F2 = RecordDescriptor("av/opt" if kind == "second-same-name" else "av/opt_other", [("varint", "n"), ("string", "g")])
+        case = {"T": "string", "c": "none", "probe": kind, "layout": "last (python -O)", "outcome": "?", "probe_in_file": False, "good_records_intact": True, "std_reader_opens": True,
+                "descriptor_carried": True, "exc": "none", "value": "a record of a second type, interpreter started with PYTHONOPTIMIZE=1", "times": 1}
+        w = AvroWriter(p)
+        w.write(D(1, "a", _generated=gen.GEN))
+        w.write(D(2, "b", _generated=gen.GEN))
+        refused = False
+        try:
+            w.write(F2(99, "x", _generated=gen.GEN))
+        except BaseException as e:  # noqa
+            refused, case["exc"] = True, type(e).__name__ + ":" + str(e)[:60]
+        w.flush()
+        w.close()
+        with open(p, "rb") as fh:
+            std = list(fastavro.reader(fh))
+        ns = [r.get("n") for r in std]
+        case["probe_in_file"] = 99 in ns
+        case["good_records_intact"] = [n for n in ns if n != 99] == [1, 2]
+        case["outcome"] = "refused" if refused else ("written-with-first-schema" if 99 in ns else "dropped")
+        out.append(case)
+    return out
+
+
 def tz_cases(arg):
     """Run in a NEW interpreter whose local time zone (TZ) is not UTC: timestamps of every kind are exported to Avro and
     read back; the instant must not depend on where the exporting process runs."""
@@ -457,6 +496,10 @@ def run(tier):
         for c in common.in_fresh_process("c19", "tz_cases", tzname, {"TZ": tzname}):
             cases.append(c)
             ctx.case(("tz", tzname, c["value"]))
+    # the refusal of a second record type must not hang on how the interpreter was started (python -O strips assert statements)
+    for c in common.in_fresh_process("c19", "optimized_cases", None, {"PYTHONOPTIMIZE": "1"}):
+        cases.append(c)
+        ctx.case(("python -O", c["probe"]))
     for n_other in (1, 3):
         cases.append(after_refused_first(n_other))
         ctx.case(("after-refused-first", n_other))
